@@ -8,7 +8,7 @@ the table quoted from the property statement. Anything the evaluator does not un
 the caller fails closed)."""
 import re
 
-from .facts import strip
+from .facts import strip, phi_branch_conditions
 
 BITS = {'i8': 8, 'i16': 16, 'i32': 32, 'i64': 64, 'isize': 64, 'i128': 128, 'u8': 8, 'u16': 16, 'u32': 32, 'u64': 64, 'usize': 64, 'u128': 128}
 
@@ -131,7 +131,7 @@ def ev(body, e, leaf, depth=0):
         feasible = []
         for br, where in zip(e[2], e[4]):
             ok = True
-            for (_, d, v) in b2.branch_conditions(where):
+            for (_, d, v) in phi_branch_conditions(b2, where):
                 if sub is not None:
                     from .facts import subst_args
                     d = subst_args(d, sub)
